@@ -61,6 +61,22 @@ func newM3Sink() *m3Sink {
 
 func (s *m3Sink) addr() string { return s.conn.LocalAddr().String() }
 
+// settle waits until no datagram has arrived for `quiet` (at most `max`): everything the sender wrote before is in the
+// socket's receive buffer, but the reading goroutine may lag behind on a loaded machine, and close() discards what it
+// has not read yet
+func (s *m3Sink) settle(quiet, max time.Duration) {
+	deadline := time.Now().Add(max)
+	last, since := s.n.Load(), time.Now()
+	for time.Now().Before(deadline) {
+		time.Sleep(2 * time.Millisecond)
+		if n := s.n.Load(); n != last {
+			last, since = n, time.Now()
+		} else if time.Since(since) >= quiet {
+			return
+		}
+	}
+}
+
 func (s *m3Sink) close() [][]byte {
 	s.conn.Close()
 	<-s.done
@@ -914,7 +930,7 @@ func m3Exec(c *Ctx, cs *m3Case, r *Rng) *m3Run {
 	}
 	evMu.Unlock()
 	// wait until every sink has every datagram (they were all written before Close returned)
-	deadline := time.Now().Add(1500 * time.Millisecond)
+	deadline := time.Now().Add(8 * time.Second) // generous: costs time only when a datagram really is missing
 	for time.Now().Before(deadline) {
 		all := true
 		for _, s := range sinks {
